@@ -598,3 +598,21 @@ def matches_spec(d, spec, what=""):
             ok = got[3:5] == exp[1:3] if got[0] == "box" else True
         require(ok, "spec:box", lambda: "{} box {}: {} vs {}".format(
             what, i, got, exp))
+
+
+def spec_of(d, cls):
+    """ Spec read back from a library monoidal/rigid diagram. """
+    layers = []
+    for bx, off in zip(d.boxes, d.offsets):
+        kind = type(bx).__name__
+        if kind in ("Cup", "Cap", "Swap") and hasattr(bx, "left"):
+            layers.append([{"k": kind.lower(), "l": list(tkey(bx.left)[0]),
+                            "r": list(tkey(bx.right)[0])}, off])
+        else:
+            layers.append([{
+                "k": "box", "name": bx.name,
+                "dom": [list(x) for x in tkey(bx.dom)],
+                "cod": [list(x) for x in tkey(bx.cod)],
+                "dag": bool(getattr(bx, "_dagger", False))}, off])
+    return {"cls": cls, "dom": [list(x) for x in tkey(d.dom)],
+            "layers": layers}
